@@ -66,6 +66,7 @@ async fn run_script(s: &Script) -> CaseResult {
     let (mut rejected, mut inserted, mut exists, mut out_of_order) = (0, 0, 0, 0);
     let (mut rejected_link, mut rejected_invalid, mut prune_jump, mut extra_accepted, mut pruned_entries) = (0, 0, 0, 0, 0u64);
     let mut late_prune_rejected = 0;
+    let mut extra_gap_rejected = 0;
 
     for (step, d) in world.deliveries.iter().enumerate() {
         let info = delivered_info(&d.op);
@@ -108,6 +109,9 @@ async fn run_script(s: &Script) -> CaseResult {
                     if why.starts_with("prune-flagged") {
                         late_prune_rejected += 1;
                     }
+                    if why == "non-incremental seq" && d.kind == Kind::Extra {
+                        extra_gap_rejected += 1;
+                    }
                 } else {
                     rejected_invalid += 1;
                 }
@@ -141,7 +145,8 @@ async fn run_script(s: &Script) -> CaseResult {
         .label_if(rejected_link > 0, "valid_op_rejected_by_link_rules")
         .label_if(rejected_invalid > 0, "forged_op_rejected")
         .label_if(prune_jump > 0, "prune_point_accepted_over_gap")
-        .label_if(extra_accepted > 0, "extra_prune_flagged_op_accepted")
+        .label_if(extra_accepted > 0, "extra_op_accepted")
+        .label_if(extra_gap_rejected > 0, "extra_op_behind_gap_rejected")
         .label_if(late_prune_rejected > 0, "late_prune_flagged_op_rejected")
         .label_if(pruned_entries > 0, "entries_pruned")
         .label_if(world.deliveries.len() >= 20, "twenty_or_more_deliveries"))
